@@ -105,9 +105,14 @@ def run(module, cfg=None, wd=None, env=None, workers=1, simulate=None, depth=Non
     e = dict(os.environ)
     e.update(env or {})
     t0 = time.time()
+
+    def _lift_cap():          # the JVM reserves a large address space: undo ./check's RLIMIT_AS cap for the child
+        import resource
+        soft, hard = resource.getrlimit(resource.RLIMIT_AS)
+        resource.setrlimit(resource.RLIMIT_AS, (hard, hard))
     try:
         p = subprocess.run(cmd, cwd=wd, env=e, stdout=subprocess.PIPE, stderr=subprocess.STDOUT,
-                           timeout=timeout, text=True, errors="replace")
+                           timeout=timeout, text=True, errors="replace", preexec_fn=_lift_cap)
         out, rc = p.stdout, p.returncode
     except subprocess.TimeoutExpired as ex:
         out = (ex.stdout or b"")
